@@ -154,3 +154,54 @@ func VerifC13_HTLCBeginBlock() {
 	verifAssert(sup.OutgoingSupply.Amount.BigInt().Cmp(sup.CurrentSupply.Amount.BigInt()) <= 0, "H6 outgoing never exceeds current")
 	verifAssert(sup.TimeElapsed >= 0 && sup.TimeElapsed < time.Hour, "window clock stays inside the period")
 }
+
+// C13/C03: MANY contracts due in the same block (more than any batch size a handler might use): every
+// one of them is refunded in that block, the queue bucket is emptied and the escrow pays back exactly
+// their sum.  All values but one amount are concrete: this is a long single history, not a symbolic one.
+func VerifC13_HTLCBeginBlockMany() {
+	verifExpect("swept")
+	const h = int64(50)
+	const n = 160
+	e := newVEnv(types.StoreKey, h, hDenom, hOther)
+	e.bank.modules[types.ModuleName] = []string{authtypes.Minter, authtypes.Burner}
+	user, other := vAddr(1), vAddr(2)
+	k := keeper.NewKeeper(e.cdc, e.key, e.acc, e.bank, vAddr(9).String())
+	if err := k.SetParams(e.ctx, types.DefaultParams()); err != nil {
+		verifFail("default params rejected")
+	}
+	first := verifIntIn("amtFirst", big.NewInt(1), verifPow2(64))
+	sum := big.NewInt(0)
+	ids := make([]tmbytes.HexBytes, n)
+	for i := 0; i < n; i++ {
+		id := make([]byte, 32)
+		id[0], id[1] = byte(i/256), byte(i%256)
+		ids[i] = id
+		amt := sdkmath.NewInt(int64(1 + i%7))
+		if i == 0 {
+			amt = first
+		}
+		sum = verifAdd(sum, amt.BigInt())
+		rec := types.NewHTLC(id, user, other, "", "", sdk.NewCoins(sdk.Coin{Denom: hOther, Amount: amt}), types.GetHashLock(make([]byte, 32), 1700000000), nil, 1700000000, uint64(h), types.Open, 0, false, types.None)
+		k.SetHTLC(e.ctx, rec, id)
+		k.AddHTLCToExpiredQueue(e.ctx, uint64(h), id)
+	}
+	e.bank.fund(vModuleAddr(types.ModuleName), hOther, sdkmath.NewIntFromBigInt(sum))
+	ctx := e.ctx.WithBlockTime(time.Unix(1700000100, 0))
+	b0 := e.bank.get(user, hOther).BigInt()
+	panicked, what := verifCatch(func() { BeginBlocker(ctx, k) })
+	if panicked {
+		verifPrint(what)
+	}
+	verifAssert(!panicked, "begin-block never panics")
+	verifCover("swept")
+	st := e.store()
+	allRefunded, noneQueued := true, true
+	for _, id := range ids {
+		rec, found := k.GetHTLC(ctx, id)
+		allRefunded = allRefunded && found && rec.State == types.Refunded
+		noneQueued = noneQueued && !st.Has(types.GetHTLCExpiredQueueKey(uint64(h), id))
+	}
+	verifAssert(allRefunded, "every contract due now is refunded, however many are due in one block")
+	verifAssert(noneQueued, "no queue entry at the current height remains")
+	verifAssert(verifSub(e.bank.get(user, hOther).BigInt(), b0).Cmp(sum) == 0 && e.bank.get(vModuleAddr(types.ModuleName), hOther).IsZero(), "the escrow pays back exactly the sum of the refunded contracts")
+}
